@@ -97,7 +97,7 @@ theorem sibling_prefix (d : Path) (c1 c2 : Name) (x : Path) (h1 : (d ++ [c1]).is
 /-- `P c x`: the destination `x` is one that the call `c` may add -/
 def MayAdd : Call → Path → Prop
   | .mount d _ _ _, x => d.isPrefixOf x = true
-  | .below _ _ _, _ => False
+  | .below _ _ _ _, _ => False
   | .host d _ _ _, x => d.isPrefixOf x = true
   | .children d _ _ names, x => ∃ c ∈ names, (d ++ [c]).isPrefixOf x = true
 
@@ -107,7 +107,7 @@ def HostPre (h : Host) (cfg : Cfg) (st : Plan) (d s : Path) : Prop :=
 
 def ShapePre (h : Host) (cfg : Cfg) (st : Plan) : Call → Prop
   | .mount d s _ _ => InOut cfg s → HostPre h cfg st d s
-  | .below _ s ms => ¬ ProperPrefix s cfg.ctrOut ∧ ∀ e ∈ ms, e ∈ cfg.mounts
+  | .below _ s _ ms => ¬ ProperPrefix s cfg.ctrOut ∧ ∀ e ∈ ms, e ∈ cfg.mounts
   | .host d s _ _ => HostPre h cfg st d s
   | .children d s _ names =>
     names.Nodup ∧ (∀ c ∈ names, Unused st (d ++ [c])) ∧ (d = [] ∨ d ∈ st.dirs) ∧
@@ -245,7 +245,7 @@ theorem shape_walk (h : Host) (cfg : Cfg) (hwf : HostWF h) (hs : supported cfg =
           obtain ⟨hmem, hpre', hlen⟩ := srcMount_mem cfg src (root, m) hsm
           simp only at hw
           have hcont : ∀ s1 : Plan, Shape s1 → dests s1 = dests st →
-              (if below = true then walk h cfg fuel (.below dest src cfg.mounts) s1 else .ok s1) = .ok st' →
+              (if below = true then walk h cfg fuel (.below dest src n cfg.mounts) s1 else .ok s1) = .ok st' →
               Shape st' ∧ ∀ x ∈ dests st', x ∈ dests st ∨ MayAdd (.mount dest src n below) x := by
             intro s1 hs1 hd1 hc
             split at hc
@@ -282,14 +282,14 @@ theorem shape_walk (h : Host) (cfg : Cfg) (hwf : HostWF h) (hs : supported cfg =
                     rw [hc] at hw
                     exact hcont _ (hsh.addFrags _) rfl hw
                 · cases hw
-    | below dest src ms =>
+    | below dest src n ms =>
       cases ms with
       | nil => rw [walk] at hw; cases hw; exact ⟨hsh, fun x hx => Or.inl hx⟩
       | cons e ms =>
         obtain ⟨mnt, m⟩ := e
         obtain ⟨hpp, hsub⟩ := hpre
         rw [walk] at hw
-        have hrest : ∀ s1, ShapePre h cfg s1 (.below dest src ms) :=
+        have hrest : ∀ s1, ShapePre h cfg s1 (.below dest src n ms) :=
           fun _ => ⟨hpp, fun e he => hsub e (List.mem_cons_of_mem _ he)⟩
         split at hw
         · rename_i hc
